@@ -491,6 +491,25 @@ def layerSetOfFont (h : Heap) (f : Id) : Option Id :=
 /-- a layer that still belongs to a layer set (operations on a deleted layer are outside the domain) -/
 def liveLayer (h : Heap) (l : Id) : Bool := h.kindOf l = some .layer ∧ (h.storedLayerSet l).isSome
 
+/-- `Glyph.clear`: the four roles are cleared; `clearImage` resets an existing image object, which dirties
+the glyph -/
+def clearAllCore (h : Heap) (g : Id) : Heap :=
+  let h := clearRole (clearRole (clearRole (clearRole h g .contour) g .component) g .anchor) g .guideline
+  if (h.kidOfKind g .image).isSome then mark h g else h
+
+/-- `glyph.anchors = …`, `glyph.guidelines = …`, `font.guidelines = …` -/
+def setListOK : Option Kind → Kind → Bool
+  | some .glyph, role => role = .anchor ∨ role = .guideline
+  | some .font, role => role = .guideline
+  | _, _ => false
+
+/-- `glyph.image`, `glyph.lib`, `layer.lib`, `font.lib` -/
+def touchOK : Option Kind → Kind → Bool
+  | some .glyph, what => what = .image ∨ what = .lib
+  | some .layer, what => what = .lib
+  | some .font, what => what = .lib
+  | _, _ => false
+
 def step (h : Heap) : Op → Heap × Res
   | .newFont =>
     let f := h.next
@@ -606,22 +625,12 @@ def step (h : Heap) : Op → Heap × Res
   | .clearAll g =>
     if h.kindOf g ≠ some .glyph then (h, .err .noSuchObject)
     else
-      let h := [Kind.contour, .component, .anchor, .guideline].foldl (fun h k => clearRole h g k) h
-      -- clearImage: an existing image object is reset, which dirties the glyph
-      ((if (h.kidOfKind g .image).isSome then mark h g else h), .ok)
+      (clearAllCore h g, .ok)
   | .setList p role xs =>
-    let okKinds : Bool := match h.kindOf p with
-      | some .glyph => role = .anchor ∨ role = .guideline
-      | some .font => role = .guideline
-      | _ => false
-    if ¬ okKinds ∨ ¬ xs.all (fun x => h.kindOf x = some role) then (h, .err .noSuchObject)
+    if ¬ setListOK (h.kindOf p) role ∨ ¬ xs.all (fun x => h.kindOf x = some role) then (h, .err .noSuchObject)
     else insertAll (clearRole h p role) p xs
   | .touch p what =>
-    let okKinds : Bool := match h.kindOf p with
-      | some .glyph => what = .image ∨ what = .lib
-      | some .layer | some .font => what = .lib
-      | _ => false
-    if ¬ okKinds then (h, .err .noSuchObject)
+    if ¬ touchOK (h.kindOf p) what then (h, .err .noSuchObject)
     else
       let h := ensure h p what
       match h.kidOfKind p what with
